@@ -214,7 +214,7 @@ class Interp:
         results = self.exec_block(body, st, nctx)
         outs: List[Outcome] = []
         for s, sig in results:
-            s.env = saved_env
+            s.env = dict(saved_env)  # every path continues with its own copy of the caller's environment
             if sig is None:
                 outs.append(Outcome(s, "return", c(None)))
             elif sig[0] == "return":
@@ -732,7 +732,7 @@ class Interp:
             fi = fv[2]
         elif fv[0] == "class":
             ci: ClassInfo = fv[1]
-            if ci.enum is not None:
+            if ci.enum is not None or ci.key in self.stubs:
                 return None
             return ci.find_method("__init__") or ci.find_method("__post_init__") or _DUMMY
         else:
